@@ -97,7 +97,7 @@ def maxSupportedVersion : Int := 10
 
 /-! ## Tag literals -/
 
-def yes : Str := "YES".toList
+def yes : Str := cs!"YES"
 
 section
 variable (C : Codec)
@@ -112,7 +112,7 @@ def rangeAttrs {α} (attrs : Attrs) (init : α) (f : α → Str → Str → Res 
 /-! ## EXT-X-START (`multivariant_start.go`) -/
 
 def Start.set (t : Int) (key val : Str) : Res Int :=
-  if key = "TIME-OFFSET".toList then durUnmarshal C val else pure t
+  if key = cs!"TIME-OFFSET" then durUnmarshal C val else pure t
 
 def Start.unmarshal (v : Str) : Res Int := do
   let attrs ← parseAttrs v
@@ -121,16 +121,16 @@ def Start.unmarshal (v : Str) : Res Int := do
   else pure t
 
 def Start.marshal (t : Int) : Str :=
-  "#EXT-X-START:TIME-OFFSET=".toList ++ C.fmtDur t ++ ['\n']
+  cs!"#EXT-X-START:TIME-OFFSET=" ++ C.fmtDur t ++ ['\n']
 
 /-! ## EXT-X-SERVER-CONTROL (`media_server_control.go`) -/
 
 def ServerControl.set (t : ServerControl) (key val : Str) : Res ServerControl :=
-  if key = "CAN-BLOCK-RELOAD".toList then pure { t with canBlockReload := decide (val = yes) }
-  else if key = "PART-HOLD-BACK".toList then do
+  if key = cs!"CAN-BLOCK-RELOAD" then pure { t with canBlockReload := decide (val = yes) }
+  else if key = cs!"PART-HOLD-BACK" then do
     let d ← durUnmarshal C val
     pure { t with partHoldBack := some d }
-  else if key = "CAN-SKIP-UNTIL".toList then do
+  else if key = cs!"CAN-SKIP-UNTIL" then do
     let d ← durUnmarshal C val
     pure { t with canSkipUntil := some d }
   else pure t
@@ -141,10 +141,10 @@ def ServerControl.unmarshal (v : Str) : Res ServerControl := do
 
 /-- the unchanged tree (F3): every optional attribute is prefixed with a comma -/
 def ServerControl.marshalLegacy (t : ServerControl) : Str :=
-  "#EXT-X-SERVER-CONTROL:".toList ++
-    (if t.canBlockReload then "CAN-BLOCK-RELOAD=YES".toList else []) ++
-    (match t.partHoldBack with | some d => ",PART-HOLD-BACK=".toList ++ C.fmtDur d | none => []) ++
-    (match t.canSkipUntil with | some d => ",CAN-SKIP-UNTIL=".toList ++ C.fmtDur d | none => []) ++
+  cs!"#EXT-X-SERVER-CONTROL:" ++
+    (if t.canBlockReload then cs!"CAN-BLOCK-RELOAD=YES" else []) ++
+    (match t.partHoldBack with | some d => cs!",PART-HOLD-BACK=" ++ C.fmtDur d | none => []) ++
+    (match t.canSkipUntil with | some d => cs!",CAN-SKIP-UNTIL=" ++ C.fmtDur d | none => []) ++
     ['\n']
 
 /-- `strings.Join(xs, ",")` -/
@@ -154,18 +154,18 @@ def joinComma : List Str → Str
   | x :: rest => x ++ ',' :: joinComma rest
 
 def ServerControl.attrTexts (t : ServerControl) : List Str :=
-  (if t.canBlockReload then ["CAN-BLOCK-RELOAD=YES".toList] else []) ++
-    (match t.partHoldBack with | some d => ["PART-HOLD-BACK=".toList ++ C.fmtDur d] | none => []) ++
-    (match t.canSkipUntil with | some d => ["CAN-SKIP-UNTIL=".toList ++ C.fmtDur d] | none => [])
+  (if t.canBlockReload then [cs!"CAN-BLOCK-RELOAD=YES"] else []) ++
+    (match t.partHoldBack with | some d => [cs!"PART-HOLD-BACK=" ++ C.fmtDur d] | none => []) ++
+    (match t.canSkipUntil with | some d => [cs!"CAN-SKIP-UNTIL=" ++ C.fmtDur d] | none => [])
 
 /-- the repaired tree (fix-F3): present attributes joined with commas -/
 def ServerControl.marshal (t : ServerControl) : Str :=
-  "#EXT-X-SERVER-CONTROL:".toList ++ joinComma (ServerControl.attrTexts C t) ++ ['\n']
+  cs!"#EXT-X-SERVER-CONTROL:" ++ joinComma (ServerControl.attrTexts C t) ++ ['\n']
 
 /-! ## EXT-X-PART-INF (`media_part_inf.go`) -/
 
 def PartInf.set (t : Int) (key val : Str) : Res Int :=
-  if key = "PART-TARGET".toList then durUnmarshal C val else pure t
+  if key = cs!"PART-TARGET" then durUnmarshal C val else pure t
 
 def PartInf.unmarshal (v : Str) : Res Int := do
   let attrs ← parseAttrs v
@@ -174,15 +174,15 @@ def PartInf.unmarshal (v : Str) : Res Int := do
   else pure t
 
 def PartInf.marshal (t : Int) : Str :=
-  "#EXT-X-PART-INF:PART-TARGET=".toList ++ C.fmtDur t ++ ['\n']
+  cs!"#EXT-X-PART-INF:PART-TARGET=" ++ C.fmtDur t ++ ['\n']
 
 end
 
 /-! ## EXT-X-MAP (`media_map.go`) -/
 
 def MapTag.set (t : MapTag) (key val : Str) : Res MapTag :=
-  if key = "URI".toList then pure { t with uri := val }
-  else if key = "BYTERANGE".toList then do
+  if key = cs!"URI" then pure { t with uri := val }
+  else if key = cs!"BYTERANGE" then do
     let br ← ByteRange.unmarshal val
     pure { t with brLen := some br.length, brStart := br.start }
   else pure t
@@ -194,26 +194,26 @@ def MapTag.unmarshal (v : Str) : Res MapTag := do
   else pure t
 
 def MapTag.marshal (t : MapTag) : Str :=
-  "#EXT-X-MAP:URI=\"".toList ++ t.uri ++ ['"'] ++
+  cs!"#EXT-X-MAP:URI=\"" ++ t.uri ++ ['"'] ++
     (match t.brLen with
-     | some l => ",BYTERANGE=".toList ++ ByteRange.marshal { length := l, start := t.brStart }
+     | some l => cs!",BYTERANGE=" ++ ByteRange.marshal { length := l, start := t.brStart }
      | none => []) ++
     ['\n']
 
 /-! ## EXT-X-KEY (`media_key.go`) -/
 
-def methodNone : Str := "NONE".toList
-def methodAES128 : Str := "AES-128".toList
-def methodSampleAES : Str := "SAMPLE-AES".toList
+def methodNone : Str := cs!"NONE"
+def methodAES128 : Str := cs!"AES-128"
+def methodSampleAES : Str := cs!"SAMPLE-AES"
 
 def Key.set (t : Key) (key val : Str) : Res Key :=
-  if key = "METHOD".toList then
+  if key = cs!"METHOD" then
     if val ≠ methodNone ∧ val ≠ methodAES128 ∧ val ≠ methodSampleAES then .err  -- invalid method
     else pure { t with method := val }
-  else if key = "URI".toList then pure { t with uri := val }
-  else if key = "IV".toList then pure { t with iv := val }
-  else if key = "KEYFORMAT".toList then pure { t with keyFormat := val }
-  else if key = "KEYFORMATVERSIONS".toList then pure { t with keyFormatVersions := val }
+  else if key = cs!"URI" then pure { t with uri := val }
+  else if key = cs!"IV" then pure { t with iv := val }
+  else if key = cs!"KEYFORMAT" then pure { t with keyFormat := val }
+  else if key = cs!"KEYFORMATVERSIONS" then pure { t with keyFormatVersions := val }
   else pure t
 
 def Key.unmarshal (v : Str) : Res Key := do
@@ -223,12 +223,12 @@ def Key.unmarshal (v : Str) : Res Key := do
   else pure t
 
 def Key.marshal (t : Key) : Str :=
-  "#EXT-X-KEY:METHOD=".toList ++ t.method ++
+  cs!"#EXT-X-KEY:METHOD=" ++ t.method ++
     (if t.method ≠ methodNone then
-      ",URI=\"".toList ++ t.uri ++ ['"'] ++
-        (if t.iv ≠ [] then ",IV=".toList ++ t.iv else []) ++
-        (if t.keyFormat ≠ [] then ",KEYFORMAT=\"".toList ++ t.keyFormat ++ ['"'] else []) ++
-        (if t.keyFormatVersions ≠ [] then ",KEYFORMATVERSIONS=\"".toList ++ t.keyFormatVersions ++ ['"'] else [])
+      cs!",URI=\"" ++ t.uri ++ ['"'] ++
+        (if t.iv ≠ [] then cs!",IV=" ++ t.iv else []) ++
+        (if t.keyFormat ≠ [] then cs!",KEYFORMAT=\"" ++ t.keyFormat ++ ['"'] else []) ++
+        (if t.keyFormatVersions ≠ [] then cs!",KEYFORMATVERSIONS=\"" ++ t.keyFormatVersions ++ ['"'] else [])
      else []) ++
     ['\n']
 
@@ -236,7 +236,7 @@ def Key.marshal (t : Key) : Str :=
 
 /-- state of the loop: (`SkippedSegments`, `skipSegFound`) -/
 def Skip.set (t : Int × Bool) (key val : Str) : Res (Int × Bool) :=
-  if key = "SKIPPED-SEGMENTS".toList then do
+  if key = cs!"SKIPPED-SEGMENTS" then do
     let tmp ← Res.ofOption (parseUint 31 val)
     pure ((tmp : Int), true)
   else pure t
@@ -248,20 +248,20 @@ def Skip.unmarshal (v : Str) : Res Int := do
   else pure t.1
 
 def Skip.marshal (t : Int) : Str :=
-  "#EXT-X-SKIP:SKIPPED-SEGMENTS=".toList ++ formatInt t ++ ['\n']
+  cs!"#EXT-X-SKIP:SKIPPED-SEGMENTS=" ++ formatInt t ++ ['\n']
 
 /-! ## EXT-X-PRELOAD-HINT (`media_preload_hint.go`) -/
 
 /-- state of the loop: (hint, `typeRecv`) -/
 def PreloadHint.set (t : PreloadHint × Bool) (key val : Str) : Res (PreloadHint × Bool) :=
-  if key = "TYPE".toList then
-    if val ≠ "PART".toList then .err  -- unsupported type
+  if key = cs!"TYPE" then
+    if val ≠ cs!"PART" then .err  -- unsupported type
     else pure (t.1, true)
-  else if key = "URI".toList then pure ({ t.1 with uri := val }, t.2)
-  else if key = "BYTERANGE-START".toList then do
+  else if key = cs!"URI" then pure ({ t.1 with uri := val }, t.2)
+  else if key = cs!"BYTERANGE-START" then do
     let tmp ← Res.ofOption (parseUint 64 val)
     pure ({ t.1 with brStart := tmp }, t.2)
-  else if key = "BYTERANGE-LENGTH".toList then do
+  else if key = cs!"BYTERANGE-LENGTH" then do
     let tmp ← Res.ofOption (parseUint 64 val)
     pure ({ t.1 with brLen := some tmp }, t.2)
   else pure t
@@ -274,9 +274,9 @@ def PreloadHint.unmarshal (v : Str) : Res PreloadHint := do
   else pure t.1
 
 def PreloadHint.marshal (t : PreloadHint) : Str :=
-  "#EXT-X-PRELOAD-HINT:TYPE=PART,URI=\"".toList ++ t.uri ++ ['"'] ++
-    (if t.brStart ≠ 0 then ",BYTERANGE-START=".toList ++ formatNat t.brStart else []) ++
-    (match t.brLen with | some l => ",BYTERANGE-LENGTH=".toList ++ formatNat l | none => []) ++
+  cs!"#EXT-X-PRELOAD-HINT:TYPE=PART,URI=\"" ++ t.uri ++ ['"'] ++
+    (if t.brStart ≠ 0 then cs!",BYTERANGE-START=" ++ formatNat t.brStart else []) ++
+    (match t.brLen with | some l => cs!",BYTERANGE-LENGTH=" ++ formatNat l | none => []) ++
     ['\n']
 
 section
@@ -285,15 +285,15 @@ variable (C : Codec)
 /-! ## EXT-X-PART (`media_part.go`) -/
 
 def Part.set (p : Part) (key val : Str) : Res Part :=
-  if key = "DURATION".toList then do
+  if key = cs!"DURATION" then do
     let d ← durUnmarshal C val
     pure { p with duration := d }
-  else if key = "URI".toList then pure { p with uri := val }
-  else if key = "INDEPENDENT".toList then pure { p with independent := decide (val = yes) }
-  else if key = "BYTERANGE".toList then do
+  else if key = cs!"URI" then pure { p with uri := val }
+  else if key = cs!"INDEPENDENT" then pure { p with independent := decide (val = yes) }
+  else if key = cs!"BYTERANGE" then do
     let br ← ByteRange.unmarshal val
     pure { p with brLen := some br.length, brStart := br.start }
-  else if key = "GAP".toList then pure { p with gap := true }
+  else if key = cs!"GAP" then pure { p with gap := true }
   else pure p
 
 def Part.unmarshal (v : Str) : Res Part := do
@@ -304,12 +304,12 @@ def Part.unmarshal (v : Str) : Res Part := do
   else pure p
 
 def Part.marshal (p : Part) : Str :=
-  "#EXT-X-PART:DURATION=".toList ++ C.fmtDur p.duration ++ ",URI=\"".toList ++ p.uri ++ ['"'] ++
-    (if p.independent then ",INDEPENDENT=YES".toList else []) ++
+  cs!"#EXT-X-PART:DURATION=" ++ C.fmtDur p.duration ++ cs!",URI=\"" ++ p.uri ++ ['"'] ++
+    (if p.independent then cs!",INDEPENDENT=YES" else []) ++
     (match p.brLen with
-     | some l => ",BYTERANGE=".toList ++ ByteRange.marshal { length := l, start := p.brStart }
+     | some l => cs!",BYTERANGE=" ++ ByteRange.marshal { length := l, start := p.brStart }
      | none => []) ++
-    (if p.gap then ",GAP=YES".toList else []) ++
+    (if p.gap then cs!",GAP=YES" else []) ++
     ['\n']
 
 def marshalParts : List Part → Str
@@ -324,18 +324,18 @@ def Segment.validate (s : Segment) : Res Unit :=
   else pure ()
 
 def Segment.marshal (s : Segment) : Str :=
-  (if s.discontinuity then "#EXT-X-DISCONTINUITY\n".toList else []) ++
-    (if s.gap then "#EXT-X-GAP\n".toList else []) ++
+  (if s.discontinuity then cs!"#EXT-X-DISCONTINUITY\n" else []) ++
+    (if s.gap then cs!"#EXT-X-GAP\n" else []) ++
     (match s.dateTime with
-     | some t => "#EXT-X-PROGRAM-DATE-TIME:".toList ++ C.fmtTime t ++ ['\n']
+     | some t => cs!"#EXT-X-PROGRAM-DATE-TIME:" ++ C.fmtTime t ++ ['\n']
      | none => []) ++
     (match s.bitrate with
-     | some v => "#EXT-X-BITRATE:".toList ++ formatInt v ++ ['\n']
+     | some v => cs!"#EXT-X-BITRATE:" ++ formatInt v ++ ['\n']
      | none => []) ++
     marshalParts C s.parts ++
-    "#EXTINF:".toList ++ C.fmtDur s.duration ++ [','] ++ s.title ++ ['\n'] ++
+    cs!"#EXTINF:" ++ C.fmtDur s.duration ++ [','] ++ s.title ++ ['\n'] ++
     (match s.brLen with
-     | some l => "#EXT-X-BYTERANGE:".toList ++ ByteRange.marshal { length := l, start := s.brStart } ++ ['\n']
+     | some l => cs!"#EXT-X-BYTERANGE:" ++ ByteRange.marshal { length := l, start := s.brStart } ++ ['\n']
      | none => []) ++
     s.uri ++ ['\n']
 
@@ -357,29 +357,29 @@ inductive MatchKind where
 /-- the `switch { case … }` chain of `Media.Unmarshal`, in source order (pinned against the
 regenerated `Hls.Gen.PlaylistMedia.dispatch` in `MediaGenPins`). -/
 def dispatch : List (Tag × MatchKind × Str) := [
-  (.version, .pfx, "#EXT-X-VERSION:".toList),
-  (.independentSegments, .pfx, "#EXT-X-INDEPENDENT-SEGMENTS".toList),
-  (.start, .pfx, "#EXT-X-START:".toList),
-  (.allowCache, .pfx, "#EXT-X-ALLOW-CACHE:".toList),
-  (.targetDuration, .pfx, "#EXT-X-TARGETDURATION:".toList),
-  (.serverControl, .pfx, "#EXT-X-SERVER-CONTROL:".toList),
-  (.partInf, .pfx, "#EXT-X-PART-INF:".toList),
-  (.mediaSequence, .pfx, "#EXT-X-MEDIA-SEQUENCE:".toList),
-  (.discontinuitySequence, .pfx, "#EXT-X-DISCONTINUITY-SEQUENCE:".toList),
-  (.playlistType, .pfx, "#EXT-X-PLAYLIST-TYPE:".toList),
-  (.map, .pfx, "#EXT-X-MAP:".toList),
-  (.key, .pfx, "#EXT-X-KEY:".toList),
-  (.skip, .pfx, "#EXT-X-SKIP:".toList),
-  (.discontinuity, .eq, "#EXT-X-DISCONTINUITY".toList),
-  (.gap, .eq, "#EXT-X-GAP".toList),
-  (.programDateTime, .pfx, "#EXT-X-PROGRAM-DATE-TIME:".toList),
-  (.bitrate, .pfx, "#EXT-X-BITRATE:".toList),
-  (.extinf, .pfx, "#EXTINF:".toList),
-  (.byteRange, .pfx, "#EXT-X-BYTERANGE:".toList),
-  (.part, .pfx, "#EXT-X-PART:".toList),
+  (.version, .pfx, cs!"#EXT-X-VERSION:"),
+  (.independentSegments, .pfx, cs!"#EXT-X-INDEPENDENT-SEGMENTS"),
+  (.start, .pfx, cs!"#EXT-X-START:"),
+  (.allowCache, .pfx, cs!"#EXT-X-ALLOW-CACHE:"),
+  (.targetDuration, .pfx, cs!"#EXT-X-TARGETDURATION:"),
+  (.serverControl, .pfx, cs!"#EXT-X-SERVER-CONTROL:"),
+  (.partInf, .pfx, cs!"#EXT-X-PART-INF:"),
+  (.mediaSequence, .pfx, cs!"#EXT-X-MEDIA-SEQUENCE:"),
+  (.discontinuitySequence, .pfx, cs!"#EXT-X-DISCONTINUITY-SEQUENCE:"),
+  (.playlistType, .pfx, cs!"#EXT-X-PLAYLIST-TYPE:"),
+  (.map, .pfx, cs!"#EXT-X-MAP:"),
+  (.key, .pfx, cs!"#EXT-X-KEY:"),
+  (.skip, .pfx, cs!"#EXT-X-SKIP:"),
+  (.discontinuity, .eq, cs!"#EXT-X-DISCONTINUITY"),
+  (.gap, .eq, cs!"#EXT-X-GAP"),
+  (.programDateTime, .pfx, cs!"#EXT-X-PROGRAM-DATE-TIME:"),
+  (.bitrate, .pfx, cs!"#EXT-X-BITRATE:"),
+  (.extinf, .pfx, cs!"#EXTINF:"),
+  (.byteRange, .pfx, cs!"#EXT-X-BYTERANGE:"),
+  (.part, .pfx, cs!"#EXT-X-PART:"),
   (.uri, .uriLine, []),
-  (.preloadHint, .pfx, "#EXT-X-PRELOAD-HINT:".toList),
-  (.endlist, .eq, "#EXT-X-ENDLIST".toList)]
+  (.preloadHint, .pfx, cs!"#EXT-X-PRELOAD-HINT:"),
+  (.endlist, .eq, cs!"#EXT-X-ENDLIST")]
 
 def lineMatches (k : MatchKind) (lit line : Str) : Bool :=
   match k with
@@ -447,7 +447,7 @@ def handle (st : St) (tag : Tag) (lit line : Str) : Res St :=
     pure { st with m := { st.m with discontinuitySequence := some v } }
   | .playlistType => do
     let line ← sliceFrom line lit.length
-    if line ≠ "EVENT".toList ∧ line ≠ "VOD".toList then .err  -- invalid playlist type
+    if line ≠ cs!"EVENT" ∧ line ≠ cs!"VOD" then .err  -- invalid playlist type
     else pure { st with m := { st.m with playlistType := some line } }
   | .map => do
     let line ← sliceFrom line lit.length
@@ -544,29 +544,29 @@ structure Legacy where
   deriving DecidableEq, Repr
 
 def Media.marshalGen (L : Legacy) (m : Media) : Str :=
-  "#EXTM3U\n".toList ++
-    "#EXT-X-VERSION:".toList ++ formatInt m.version ++ ['\n'] ++
-    (if m.independentSegments then "#EXT-X-INDEPENDENT-SEGMENTS\n".toList else []) ++
+  cs!"#EXTM3U\n" ++
+    cs!"#EXT-X-VERSION:" ++ formatInt m.version ++ ['\n'] ++
+    (if m.independentSegments then cs!"#EXT-X-INDEPENDENT-SEGMENTS\n" else []) ++
     (match m.start with
      | some t => if L.f1 then [] else Start.marshal C t
      | none => []) ++
     (match m.allowCache with
-     | some v => "#EXT-X-ALLOW-CACHE:".toList ++ (if v then "YES".toList else "NO".toList) ++ ['\n']
+     | some v => cs!"#EXT-X-ALLOW-CACHE:" ++ (if v then cs!"YES" else cs!"NO") ++ ['\n']
      | none => []) ++
-    "#EXT-X-TARGETDURATION:".toList ++ formatInt m.targetDuration ++ ['\n'] ++
+    cs!"#EXT-X-TARGETDURATION:" ++ formatInt m.targetDuration ++ ['\n'] ++
     (match m.serverControl with
      | some t => if L.f3 then ServerControl.marshalLegacy C t else ServerControl.marshal C t
      | none => []) ++
     (match m.partInf with
      | some t => PartInf.marshal C t
      | none => []) ++
-    "#EXT-X-MEDIA-SEQUENCE:".toList ++ formatInt m.mediaSequence ++ ['\n'] ++
+    cs!"#EXT-X-MEDIA-SEQUENCE:" ++ formatInt m.mediaSequence ++ ['\n'] ++
     (match m.discontinuitySequence with
-     | some v => "#EXT-X-DISCONTINUITY-SEQUENCE:".toList ++
+     | some v => cs!"#EXT-X-DISCONTINUITY-SEQUENCE:" ++
         formatInt (if L.f2 then m.mediaSequence else v) ++ ['\n']
      | none => []) ++
     (match m.playlistType with
-     | some v => "#EXT-X-PLAYLIST-TYPE:".toList ++ v ++ ['\n']
+     | some v => cs!"#EXT-X-PLAYLIST-TYPE:" ++ v ++ ['\n']
      | none => []) ++
     (match m.map with
      | some t => MapTag.marshal t
@@ -579,7 +579,7 @@ def Media.marshalGen (L : Legacy) (m : Media) : Str :=
     (match m.preloadHint with
      | some t => PreloadHint.marshal t
      | none => []) ++
-    (if m.endlist then "#EXT-X-ENDLIST\n".toList else [])
+    (if m.endlist then cs!"#EXT-X-ENDLIST\n" else [])
 
 /-- `Media.Marshal` of the repaired tree (fix-F1, fix-F2, fix-F3 applied) -/
 def Media.marshal (m : Media) : Str := Media.marshalGen C ⟨false, false, false⟩ m
